@@ -161,3 +161,26 @@ def tagged_json(r, tag):
 
 def tagged_values(r, tag):
     return tagged(r, tag)
+
+
+def apalache(module, args, timeout=900):
+    """Run apalache-mc check on spec/<module>.tla; -> (verdict, wall, tail) with verdict in 'ok' | 'error' | 'timeout' | 'failed'."""
+    out = tempfile.mkdtemp(prefix="apa_")
+    t0 = time.time()
+    try:
+        p = subprocess.run(["apalache-mc", "check", "--out-dir=" + out, "--run-dir=" + out] + list(args) + [module + ".tla"],
+                           capture_output=True, text=True, cwd=SPEC_DIR, timeout=timeout)
+    except subprocess.TimeoutExpired:
+        return "timeout", time.time() - t0, ""
+    except OSError as e:
+        return "failed", time.time() - t0, repr(e)
+    finally:
+        shutil.rmtree(out, ignore_errors=True)
+    txt = p.stdout + p.stderr
+    if "EXITCODE: OK" in txt and p.returncode == 0:
+        v = "ok"
+    elif "Checker has found an error" in txt:
+        v = "error"
+    else:
+        v = "failed"
+    return v, time.time() - t0, txt[-600:]
